@@ -506,8 +506,16 @@ theorem termOf_pg (pg : PG) (hok : pg.OK) : termOf pg.node = [] := by
       exact endsNL_groups _ hok.ne fun x hx => (hok.entries x hx).2.1
     · exact (endsNL_cToks _ ht).append _
   obtain ⟨a, ha⟩ := hends
-  simp only [termOf, leavesList_cons, leavesList_nil, List.append_nil, ha, List.getLast?_concat]
-  rfl
+  unfold termOf
+  cases hl : lastTok pg.node.children with
+  | none => rfl
+  | some t =>
+    have h1 := lastTok_leaves _ _ hl
+    have hlv : leavesList pg.node.children = pg.node.leaves := by simp [PG.node, Node.children]
+    rw [hlv, ha] at h1
+    simp only [List.getLast?_concat, List.getLast?_append, List.getLast?_singleton, Option.some.injEq] at h1
+    have : t = (Kind.NEWLINE, ['\n']) := by simpa using h1.symm
+    subst this; rfl
 
 /-! #### the token sequence of the result -/
 
